@@ -11,7 +11,7 @@ use std::{
     sync::Arc,
 };
 
-use crate::{Position, Size, common::clamp};
+use crate::{Position, Size};
 
 /// Shape object describing layout of data in the surface object
 #[derive(Debug, Clone, Copy, PartialOrd, Ord, PartialEq, Eq, Hash)]
@@ -754,13 +754,7 @@ macro_rules! impl_signed_ints(
         $(
             impl ViewBounds for $int_type {
                 fn view_bounds(self, size: usize) -> Option<(usize, usize)> {
-                    let size = size as $int_type;
-                    if self < -size || self >= size {
-                        None
-                    } else {
-                        let start = clamp(self + size, 0, 2 * size - 1) % size;
-                        Some((start as usize, (start + 1) as usize))
-                    }
+                    index_bounds(self as i128, size)
                 }
             }
         )+
@@ -773,12 +767,7 @@ macro_rules! impl_unsigned_ints(
         $(
             impl ViewBounds for $int_type {
                 fn view_bounds(self, size: usize) -> Option<(usize, usize)> {
-                    let index = self as usize;
-                    if index >= size {
-                        None
-                    } else {
-                        Some((index, index + 1))
-                    }
+                    index_bounds(self as i128, size)
                 }
             }
         )+
@@ -793,8 +782,8 @@ macro_rules! impl_range_ints(
                 fn view_bounds(self, size: usize) -> Option<(usize, usize)> {
                     range_bounds(
                         Range {
-                            start: self.start as i64,
-                            end: self.end as i64,
+                            start: self.start as i128,
+                            end: self.end as i128,
                         },
                         size,
                     )
@@ -803,27 +792,27 @@ macro_rules! impl_range_ints(
 
             impl ViewBounds for RangeFrom<$int_type> {
                 fn view_bounds(self, size: usize) -> Option<(usize, usize)> {
-                    range_bounds(RangeFrom { start: self.start as i64 }, size)
+                    range_bounds(RangeFrom { start: self.start as i128 }, size)
                 }
             }
 
             impl ViewBounds for RangeTo<$int_type> {
                 fn view_bounds(self, size: usize) -> Option<(usize, usize)> {
-                    range_bounds(RangeTo { end: self.end as i64 }, size)
+                    range_bounds(RangeTo { end: self.end as i128 }, size)
                 }
             }
 
             impl ViewBounds for RangeInclusive<$int_type> {
                 fn view_bounds(self, size: usize) -> Option<(usize, usize)> {
-                    let start = *self.start() as i64;
-                    let end = *self.end() as i64;
+                    let start = *self.start() as i128;
+                    let end = *self.end() as i128;
                     range_bounds(start..=end, size)
                 }
             }
 
             impl ViewBounds for RangeToInclusive<$int_type> {
                 fn view_bounds(self, size: usize) -> Option<(usize, usize)> {
-                    let end = self.end as i64;
+                    let end = self.end as i128;
                     range_bounds(..=end, size)
                 }
             }
@@ -832,30 +821,47 @@ macro_rules! impl_range_ints(
 );
 impl_range_ints!(u8, i8, u16, i16, u32, i32, u64, i64, usize, isize);
 
-fn range_bounds(bound: impl RangeBounds<i64>, size: usize) -> Option<(usize, usize)> {
-    //  (index + size) % size - almost works
-    //  0  1  2  3  4  5  6  7  8  9  0  1  2  3  4  5  6  7  8  9
-    //-10 -9 -8 -7 -6 -5 -4 -3 -2 -1  0  1  2  3  4  5  6  7  8  9
-    let size = size as i64;
+/// Resolve single index, negative index counts from the end of the axis.
+fn index_bounds(index: i128, size: usize) -> Option<(usize, usize)> {
+    let size = size as i128;
+    let index = if index < 0 { index + size } else { index };
+    if index < 0 || index >= size {
+        None
+    } else {
+        Some((index as usize, index as usize + 1))
+    }
+}
+
+/// Resolve range the same way python does for slices: negative bounds count
+/// from the end of the axis, and then bounds are clamped to the axis.
+///
+/// NOTE: `i128` is used so every value of every supported integer type is
+/// representable and arithmetic below can not overflow.
+fn range_bounds(bound: impl RangeBounds<i128>, size: usize) -> Option<(usize, usize)> {
+    let size = size as i128;
     if size == 0 {
         return None;
     }
-
-    let (start, offset) = match bound.start_bound() {
-        Bound::Unbounded => (0, 0),
-        Bound::Included(start) => (*start, 0),
-        Bound::Excluded(start) => (*start, 1),
+    let resolve = |index: i128| -> i128 {
+        if index < 0 {
+            (index + size).max(0)
+        } else {
+            index.min(size)
+        }
     };
-    let offset = if start >= size { 1 } else { offset };
-    let start = clamp(start + size, 0, 2 * size - 1) % size + offset;
 
-    let (end, offset) = match bound.end_bound() {
-        Bound::Unbounded => (-1, 1),
-        Bound::Included(end) => (*end, 1),
-        Bound::Excluded(end) => (*end, 0),
+    let start = match bound.start_bound() {
+        Bound::Unbounded => 0,
+        Bound::Included(start) => resolve(*start),
+        Bound::Excluded(start) => (resolve(*start) + 1).min(size),
     };
-    let offset = if end >= size { 1 } else { offset };
-    let end = clamp(end + size, 0, 2 * size - 1) % size + offset;
+    let end = match bound.end_bound() {
+        Bound::Unbounded => size,
+        // one past the last element is the end of the axis
+        Bound::Included(-1) => size,
+        Bound::Included(end) => resolve(*end + 1),
+        Bound::Excluded(end) => resolve(*end),
+    };
 
     if end <= start {
         None
